@@ -83,11 +83,9 @@ def gen_channel(rng, cls=None, physical=False) -> dict:
     def limit():
         return _f(rng, 1.0) * rng.choice([1, 2 * math.pi])
 
-    # undefined limits (virtual channels): both, only the detuning, or (rarely: construction of the host
-    # device then fails, finding C17-F9) only the amplitude
-    r = rng.random() if undefined_ok else 1.0
-    kw["max_abs_detuning"] = None if r < 0.25 else limit()
-    kw["max_amp"] = None if (r < 0.15 or 0.25 <= r < 0.29) else limit()
+    # undefined limits (virtual channels), independently of each other
+    kw["max_abs_detuning"] = None if (undefined_ok and rng.random() < 0.25) else limit()
+    kw["max_amp"] = None if (undefined_ok and rng.random() < 0.25) else limit()
     if addressing == "Local":
         r = rng.random()
         if r < 0.8:
@@ -418,7 +416,7 @@ def gen_times(rng):
 
 def gen_observable(rng, i: int, qutip=False) -> dict:
     kind = rng.choice(["bitstrings", "expectation", "fidelity", "occupation", "correlation_matrix", "energy",
-                       "energy_variance"] * 4 + ["energy_second_moment"])  # the last cannot be serialised (C17-F5)
+                       "energy_variance", "energy_second_moment"])
     s: dict = dict(kind=kind, evaluation_times=gen_times(rng),
                    tag_suffix=rng.choice([None, None, f"s{i}", "ü"]) if rng.random() < 0.6 else f"t{i}")
     if kind == "bitstrings":
@@ -487,11 +485,6 @@ def gen_config(rng) -> dict:
         s["prefer_device_noise_model"] = rng.random() < 0.5
     if rng.random() < 0.5:
         s["noise"] = gen_noise(rng, allow_irrelevant=False)
-        # a noise model with an effective channel makes the config unserialisable (C17-F6): keep those rare
-        for _ in range(6):
-            if "eff_noise_rates" not in s["noise"]["kw"] or rng.random() < 0.15:
-                break
-            s["noise"] = gen_noise(rng, allow_irrelevant=False)
     if qutip and rng.random() < 0.5:
         s["sampling_rate"] = rng.choice([1.0, 0.5, 0.1])
     if not qutip and rng.random() < 0.2:
@@ -781,8 +774,18 @@ def schema_validate(instance, name: str) -> str | None:
             raise err
     except jsonschema.exceptions.ValidationError as e:
         return str(e.message)[:300]
-    except Exception as e:  # noqa: BLE001  (the validator itself crashed on this schema/instance)
-        return f"validator raised {type(e).__name__}: {str(e)[:200]}"
+    except Exception as e:  # noqa: BLE001
+        # The validator of the schema's declared draft crashed (config-schema is draft 2020-12 but $refs the
+        # draft-7 noise schema, whose array form of "items" it does not understand): validate as Draft 7, the
+        # common denominator (what the library and upstream do for every schema).
+        try:
+            key = name + ":draft7"
+            if key not in _VALIDATORS:
+                _VALIDATORS[key] = jsonschema.Draft7Validator(schema, registry=_VALIDATORS["registry"])
+            err = jsonschema.exceptions.best_match(_VALIDATORS[key].iter_errors(instance))
+            return None if err is None else str(err.message)[:300]
+        except Exception as e2:  # noqa: BLE001
+            return f"validator raised {type(e).__name__} / {type(e2).__name__}: {str(e2)[:200]}"
     return None
 
 
@@ -871,6 +874,8 @@ def _snap_result_value(v):
     if isinstance(v, np.ndarray):
         return tb.vobj([("ndarray", to_value(v.tolist()))])
     if isinstance(v, (complex, np.complexfloating)):
+        if complex(v).imag == 0:  # 1+0j == 1.0: a complex without imaginary part travels as a real number
+            return tb.vnum(complex(v).real)
         return tb.vobj([("complex", tb.vlist([tb.vnum(complex(v).real), tb.vnum(complex(v).imag)]))])
     if isinstance(v, dict):
         return tb.vobj([(str(k), _snap_result_value(x)) for k, x in sorted(v.items())])
